@@ -165,8 +165,13 @@ class SymDiGraph:
             return [(u, v) for (u, v) in self.edges()]
         if isinstance(n, (list, tuple, np.ndarray)):
             out = []
+            seen = set()
             for m in n:
-                out.extend(self.in_edges(m))
+                sm = self._slot(m)
+                if sm is None or sm in seen or not cur().decide(zb(self.alive[sm])):
+                    continue
+                seen.add(sm)
+                out.extend(self.in_edges(self.ids[sm]))
             return out
         s = self._live_slot(n, nx.NetworkXError)
         return [(p, self.ids[s]) for p in self.predecessors(self.ids[s])]
@@ -178,12 +183,14 @@ class SymDiGraph:
             return self.edges()
         if isinstance(n, (list, tuple, np.ndarray)):
             out = []
+            seen = set()
             for m in n:
-                # networkx silently skips nbunch members that are not nodes
+                # networkx silently skips nbunch members that are not nodes, and visits each node once
                 sm = self._slot(m)
-                if sm is None or not cur().decide(zb(self.alive[sm])):
+                if sm is None or sm in seen or not cur().decide(zb(self.alive[sm])):
                     continue
-                out.extend(self.out_edges(m))
+                seen.add(sm)
+                out.extend(self.out_edges(self.ids[sm]))
             return out
         s = self._live_slot(n, nx.NetworkXError)
         return [(self.ids[s], c) for c in self.successors(self.ids[s])]
